@@ -145,3 +145,6 @@ pub mod errors;
 pub mod job;
 
 mod flag;
+
+#[cfg(all(watchexec_verif, not(test)))]
+pub mod verif;
